@@ -206,6 +206,9 @@ func runC11(rowsFile string, b *hc.Builder) {
 			}
 			// decode the equivalent document
 			doc := refJSON(b, row.Tree, 0)
+			if row.Schema == "Ent" {
+				c11ServerProbe(dirs, doc, row.Legal, feat, cs, stats)
+			}
 			r, err := restlicodec.NewJsonReaderWithExcludedFields([]byte(doc), spec, 1)
 			if err != nil {
 				panic(err)
